@@ -231,10 +231,10 @@ def run_property(prop: str, tier: str, seed: int = 0, only: Optional[str] = None
             "queries": sum(int(r.get("queries", 0) or 0) for r in rs),
         })
 
-    if violations:
-        exit_code = 1
     if harness_error:
         exit_code = 2
+    if violations:      # a natively reproduced violation is reported even if another obligation's harness is in doubt
+        exit_code = 1
     wall = time.perf_counter() - run.t0
     meta = getattr(mod, "META", {})
     level = meta.get("level", "model_checking")
